@@ -1,6 +1,7 @@
 import SJ.Drv.Mach
 import SJ.Drv.C03
 import SJ.Model.IoFault
+import SJ.Model.StreamFault
 import SJ.Model.IoKind
 import SJ.Model.Write
 import SJ.Model.WriteTrace
@@ -76,21 +77,52 @@ def rfaultt : Handler := fun args impl =>
     | _ => bad "obs"
   | _ => bad "arity"
 
-/-- stream over a faulty reader: values, then the Io error exactly once, then None forever
-    (or an earlier syntax error, then None) -/
+/-- the property on one stream history: values (and undelimited-scalar errors, after which the stream goes on), then the Io
+    error exactly once — or an earlier syntax error —, then None forever -/
+def judgeStream (kind impl : String) : List String :=
+  let items := impl.splitOn ","
+  -- values and undelimited-scalar errors (`peek_end_of_value`: the stream goes on) first
+  let isTrailing (e : String) : Bool := (e.splitOn ":").getD 1 "" == hexOfBytes (Gen.message .TrailingCharacters)
+  let rest := items.dropWhile fun e => e == "V" || isTrailing e
+  let firstErr := rest.head?
+  let after := rest.drop 1
+  let ok := (match firstErr with
+    | some e => e == s!"IO:{kind}" || e.startsWith "E:"
+    | none => false) && after.all (· == "N") && !after.isEmpty
+  if impl == "PANIC" then ["C13 panic in a stream over a failing reader"]
+  else if ok then [] else [s!"C13 stream over a failing reader: expected values, one terminal error, then None forever; got {impl}"]
+
+/-- the harness's loop (`drive_stream`): at most `n` calls, stopping after two `None` in a row once four items are there -/
+def cutHistory (items : List String) : List String :=
+  let rec go (rest : List String) (acc : List String) : List String :=
+    match rest with
+    | [] => acc.reverse
+    | x :: r =>
+      let acc' := x :: acc
+      if x == "N" && acc'.length > 3 && acc.head? == some "N" then acc'.reverse else go r acc'
+  go items []
+
+/-- `sfault <cfg> <ctor> <p|o> <kind> <k> <intr> <hex doc> => item,…` — stream of `Value`s over a reader that delivers `doc[..k]`
+    and then fails (for ever, or once), the stream built in one of four ways (owning or borrowing its `IoRead`).
+    Model: `Model.StreamFault.historyF` — the same for every construction and for both fault modes. -/
 def sfault : Handler := fun args impl =>
   match args with
-  | [_, kind, _, _] =>
-    let items := impl.splitOn ","
-    -- values and undelimited-scalar errors (`peek_end_of_value`: the stream goes on) first
-    let isTrailing (e : String) : Bool := (e.splitOn ":").getD 1 "" == hexOfBytes (Gen.message .TrailingCharacters)
-    let rest := items.dropWhile fun e => e == "V" || isTrailing e
-    let firstErr := rest.head?
-    let after := rest.drop 1
-    let ok := (match firstErr with
-      | some e => e == s!"IO:{kind}" || e.startsWith "E:"
-      | none => false) && after.all (· == "N") && !after.isEmpty
-    { model := impl, specs := if ok then [] else [s!"C13 stream over a failing reader: expected values, one terminal error, then None forever; got {impl}"] }
+  | [c, _, _, kind, ks, _, h] =>
+    match ks.toNat?, bytesOfHex h with
+    | some k, some bs =>
+      let env : Env := { cfg := cfgOfTag c, src := .reader, tgt := .value }
+      let p := bs.take k
+      let showItem : Model.StreamFault.FItem → String
+        | .none => "N"
+        | .ok _ => "V"
+        | .io => s!"IO:{kind}"
+        | .err code idx =>
+          let (l, col) := lineCol p idx
+          s!"E:{hexOfBytes (Gen.message code)}:{catName (Gen.classify code)}:{l}:{col}"
+      let hist := (Model.StreamFault.historyF env (bs.length + 4) (Model.Stream.start p)).map showItem
+      { model := ",".intercalate (cutHistory hist), specs := judgeStream kind impl }
+    | _, _ => bad "decode"
+  | [_, kind, _, _] => { model := impl, specs := judgeStream kind impl }      -- the op's first form (old replay files)
   | _ => bad "arity"
 
 /-! ## writer side: the script policies of `harness/src/c13.rs` against `Model.Write` -/
